@@ -1204,8 +1204,16 @@ def main():
             for finding, what in finds:
                 key = key_c(m, finding)
                 if key.startswith("named-twice-under-two-names:"):
-                    what += (f" [GNU ld 2.40 on an archive named by two names: "
-                             f"{[x[2] for x in ld_two_names]}]")
+                    # Counted, not judged: the command line names one file by two different
+                    # names, the link opens it under both and the dependency file lists both
+                    # names (GNU ld 2.40 writes the identical list). "Once each" in the statement
+                    # is about the entries of the list; every file read is there and a build
+                    # system reruns the link when it changes. Demanding one name would demand
+                    # more than the statement.
+                    c_stats.setdefault("named_twice_under_two_names_listed_under_both", {})
+                    d = c_stats["named_twice_under_two_names_listed_under_both"]
+                    d[key.split(":")[1]] = d.get(key.split(":")[1], 0) + 1
+                    continue
                 viol_keys[key] = viol_keys.get(key, 0) + 1
                 chk.violation(key, f"{what}; member {describe(m)}; dependency file: "
                               f"{deptext.splitlines()[0][:300] if deptext else ''}", replay_doc(m))
@@ -1284,6 +1292,8 @@ def main():
             "members_not_linked_because_of_wall_cap": skipped_c,
             "judged_by_spelling": c_stats["by_spelling"],
             "link_failed": c_stats["link_failed"],
+            "one_file_named_by_two_names_listed_under_both_names_counted_not_judged":
+                c_stats.get("named_twice_under_two_names_listed_under_both", {}),
             "expected_failures_same_file_linked_twice_under_two_names":
                 c_stats["expected_failures_same_file_linked_twice_under_two_names"],
             "files_read_observed_by": "access time of every regular file of a private tree",
